@@ -13,7 +13,7 @@ import copy
 
 from harness import ctxrun
 from harness import gen_ctx as GC
-from harness.common import ImplWorker, Model, Report, rng_for
+from harness.common import ImplWorker, Model, Report, rng_for, depth
 from harness.impl import H_PLAIN
 from harness.props.c01 import sig_case
 
@@ -54,7 +54,7 @@ def styles(rnd, case: dict) -> dict:
 
 def run(tier: str, seed: int, rep: Report, model: Model) -> dict:
     rnd = rng_for("C02", seed)
-    n = 1000 if tier == "quick" else 10000
+    n = depth(tier, 1000, 10000)
     rep.rule = ("conforming contexts (as C01) in a random call style: positional / keyword / mixed / omitted defaults / unhashable default; "
                 "distinct = distinct (signature, values, style); non-trivial = at least two annotated tensors")
     cases = corpus()
